@@ -6,8 +6,10 @@
 
   The AST is *flat*: a regex is a flag set plus a sequence of items, each item a single
   character test (`one`), a repeated/optional single-character test (`star`, `plus`,
-  `opt`) or an anchor.  The library never generates groups, alternation or nested
-  repetition, so the matcher is structural recursion on the item list and
+  `opt`), an anchor, a one-character negative lookahead `(?!a)` (glob writes `(?!/)` in front
+  of every bracket expression) or a starred non-capturing group whose body is a sequence of
+  `a` / `a+` (glob writes `(?:/[^/]+)*` for a `**` component).  There is no alternation and no
+  nesting beyond that one level, so the matcher is structural recursion on the item list and
   "matches ↔ ∃ split of the subject" lemmas are direct (FsProofs/Lemmas/GlobLemmas).
 
   Python's `re` is external (DESIGN §5): this file is a re-statement of its documented
@@ -84,6 +86,12 @@ inductive Atom where
   | set (neg : Bool) (items : List SetItem)  -- `[...]` / `[^...]`
   deriving DecidableEq, Repr
 
+/-- an element of the body of a starred group: `a` or `a+` -/
+inductive GItem where
+  | one (a : Atom)
+  | plus (a : Atom)
+  deriving DecidableEq, Repr
+
 inductive Item where
   | one (a : Atom)
   | star (a : Atom) (lazy : Bool)   -- `a*`  / `a*?`
@@ -92,6 +100,8 @@ inductive Item where
   | bol                             -- `^`
   | eol                             -- `$`
   | endZ                            -- `\Z`
+  | notAhead (a : Atom)             -- `(?!a)`
+  | starGroup (body : List GItem)   -- `(?:body)*`
   deriving DecidableEq, Repr
 
 /-- `inline` are the letters of a leading `(?…)` group as written (the library writes `ms`);
@@ -127,7 +137,13 @@ def Atom.toPy : Atom → Str
 
 def lazyMark (l : Bool) : Str := if l then ['?'] else []
 
+def GItem.toPy : GItem → Str
+  | .one a => a.toPy
+  | .plus a => a.toPy ++ ['+']
+
 def Item.toPy : Item → Str
+  | .notAhead a => '(' :: '?' :: '!' :: a.toPy ++ [')']
+  | .starGroup body => '(' :: '?' :: ':' :: body.flatMap GItem.toPy ++ [')', '*']
   | .one a => a.toPy
   | .star a l => a.toPy ++ '*' :: lazyMark l
   | .plus a l => a.toPy ++ '+' :: lazyMark l
@@ -174,6 +190,28 @@ def atBol (f : Flags) (prev : Option Char) : Bool :=
 def atEol (f : Flags) (s : Str) : Bool :=
   s == [] || (if f.multiline then s.head? == some '\n' else s == ['\n'])
 
+/-- the body of a starred group, followed by the continuation `k` -/
+def matchG (ok : Atom → Char → Bool) : List GItem → (Option Char → Str → Bool) → Option Char → Str → Bool
+  | [], k, prev, s => k prev s
+  | .one a :: r, k, _, s =>
+    (match s with
+     | c :: cs => ok a c && matchG ok r k (some c) cs
+     | [] => false)
+  | .plus a :: r, k, _, s =>
+    (match s with
+     | c :: cs => ok a c && starLoop (ok a) (matchG ok r k) (some c) cs
+     | [] => false)
+
+/-- `(?:body)*` followed by `k`: stop here, or run the body once over a non-empty piece of the
+subject and go round again (an iteration that consumes nothing ends the loop in Python too).
+`fuel` bounds the number of iterations; the length of the subject is always enough. -/
+def groupLoop (ok : Atom → Char → Bool) (body : List GItem) (k : Option Char → Str → Bool) :
+    Nat → Option Char → Str → Bool
+  | 0, prev, s => k prev s
+  | fuel + 1, prev, s =>
+    k prev s ||
+      matchG ok body (fun p s' => decide (s'.length < s.length) && groupLoop ok body k fuel p s') prev s
+
 /-- `prev` is the character before the current position (`none` at the start of the subject);
 the result says whether the items can be matched starting here (no need to reach the end:
 `re.match`, not `fullmatch`). -/
@@ -196,14 +234,19 @@ def matchItems (f : Flags) : List Item → Option Char → Str → Bool
   | .bol :: r, prev, s => atBol f prev && matchItems f r prev s
   | .eol :: r, prev, s => atEol f s && matchItems f r prev s
   | .endZ :: r, prev, s => s == [] && matchItems f r prev s
+  | .notAhead a :: r, prev, s =>
+    (match s with
+     | c :: _ => !a.ok f c
+     | [] => true) && matchItems f r prev s
+  | .starGroup body :: r, prev, s => groupLoop (fun a => a.ok f) body (matchItems f r) s.length prev s
 
 def Regex.matches (r : Regex) (s : Str) : Bool := matchItems r.flags r.items none s
 
 /-! ### parser: Python's `re` parser restricted to the subset (text → AST)
 
 `reError` where Python raises `re.error`; `outside` for syntax the AST cannot express
-(groups, alternation, counted repetition, possessive quantifiers, alphanumeric escapes
-other than `\Z`, flags other than i/m/s). -/
+(groups other than `(?!a)` and `(?:a b+ …)*`, alternation, counted repetition, possessive
+quantifiers, alphanumeric escapes other than `\Z`, flags other than i/m/s). -/
 
 def isAsciiAlnum (c : Char) : Bool :=
   ('0' ≤ c && c ≤ '9') || ('a' ≤ c && c ≤ 'z') || ('A' ≤ c && c ≤ 'Z')
@@ -255,6 +298,43 @@ def quantify (a : Atom) (rest : Str) : TR (Item × Str) :=
     else .ok (.one a, rest)
   | [] => .ok (.one a, [])
 
+/-- one atom at the head of the text (inside a lookahead / group) -/
+def parseAtom (s : Str) : TR (Atom × Str) :=
+  match s with
+  | '\\' :: c :: r => if isAsciiAlnum c then .err .outside else .ok (.chr ⟨c, true⟩, r)
+  | '.' :: r => .ok (.any, r)
+  | '[' :: r =>
+    let (neg, body) := match r with
+      | '^' :: b => (true, b)
+      | b => (false, b)
+    (match parseSetLoop (body.length + 1) body [] with
+     | .err e => .err e
+     | .ok (items, r1) => .ok (.set neg items, r1))
+  | c :: r =>
+    if isQuant c || c == '(' || c == ')' || c == '|' || c == '{' || c == '^' || c == '$' || c == '\\' then .err .outside
+    else .ok (.chr ⟨c, false⟩, r)
+  | [] => .err .outside
+
+/-- the body of `(?:…)`: atoms, each optionally followed by `+`, up to the closing `)` -/
+def parseGroupBody : Nat → Str → List GItem → TR (List GItem × Str)
+  | 0, _, _ => .err .outside
+  | fuel + 1, s, acc =>
+    match s with
+    | ')' :: r => .ok (acc.reverse, r)
+    | _ =>
+      match parseAtom s with
+      | .err e => .err e
+      | .ok (a, r) =>
+        match r with
+        | '+' :: r' =>
+          (match r' with
+           | '?' :: _ => .err .outside
+           | '+' :: _ => .err .outside
+           | _ => parseGroupBody fuel r' (.plus a :: acc))
+        | '*' :: _ => .err .outside
+        | '?' :: _ => .err .outside
+        | _ => parseGroupBody fuel r (.one a :: acc)
+
 def parseItems : Nat → Str → List Item → TR (List Item)
   | 0, _, _ => .err .outside
   | fuel + 1, s, acc =>
@@ -283,6 +363,26 @@ def parseItems : Nat → Str → List Item → TR (List Item)
          match quantify (.set neg items) r1 with
          | .err e => .err e
          | .ok (it, r') => parseItems fuel r' (it :: acc))
+    | '(' :: '?' :: '!' :: r =>
+      (match parseAtom r with
+       | .err e => .err e
+       | .ok (a, r1) =>
+         match r1 with
+         | ')' :: r2 =>
+           (match r2 with
+            | q :: _ => if isQuant q then .err .outside else parseItems fuel r2 (.notAhead a :: acc)
+            | [] => parseItems fuel r2 (.notAhead a :: acc))
+         | _ => .err .outside)
+    | '(' :: '?' :: ':' :: r =>
+      (match parseGroupBody (r.length + 1) r [] with
+       | .err e => .err e
+       | .ok (body, r1) =>
+         match r1 with
+         | '*' :: r2 =>
+           (match r2 with
+            | q :: _ => if isQuant q then .err .outside else parseItems fuel r2 (.starGroup body :: acc)
+            | [] => parseItems fuel r2 (.starGroup body :: acc))
+         | _ => .err .outside)
     | c :: r =>
       if isQuant c then .err .reError          -- nothing to repeat / multiple repeat
       else if c == '(' || c == ')' || c == '|' || c == '{' then .err .outside
